@@ -137,6 +137,8 @@ impl IOCtx {
 
         if let CtxOut::Clean { .. } = self.out {
             if let Ok(export_file) = self.work_dir.try_resolve(&p, false) {
+                #[cfg(feature = "verif")]
+                crate::verif::io_point("clean_remove_temp");
                 fs::remove_file(&export_file)
                     .change_context_lazy(|| make_error!(self, PpErrorKind::DeleteFile))
                     .attach_printable_lazy(|| {
@@ -310,6 +312,8 @@ impl CtxOut {
             Mode::Clean => {
                 let p = output_path.as_ref();
                 if p.exists() {
+                    #[cfg(feature = "verif")]
+                    crate::verif::io_point("clean_remove_output");
                     fs::remove_file(p)
                         .change_context_lazy(|| {
                             IOCtx::make_error_with_kind(
